@@ -2,7 +2,7 @@
 # usage: verify_mutant.sh <worktree> <mutant-dir>   — confirms: applies, full suite passes with it, demo fails with / passes without.
 wt="$1"; m="$2"; FEAT="${3:-}"
 if [ -n "$FEAT" ]; then FF="--features"; else FF=""; fi
-export CARGO_TARGET_DIR=/tmp/mut_target CARGO_NET_OFFLINE=true
+export CARGO_TARGET_DIR=${MUT_TARGET:-/tmp/mut_target} CARGO_NET_OFFLINE=true
 cd "$wt" || exit 2
 git checkout -q -- . ; rm -f tests/verif_demo.rs
 git apply "$m/patch.diff" || { echo "RESULT apply=FAIL"; exit 1; }
